@@ -1,13 +1,661 @@
-//! C15 — not yet implemented
-use crate::core::{Ctx, Outcome};
-use serde_json::Value;
+//! C15 — Unrealised PnL of an open position tracks the instrument's latest price.
+//!
+//! E-SEQ through the REAL `Engine::process` on an engine with three instruments on two exchanges (the
+//! two driven instruments have indices 1 and 2, on exchange 0 and 1, so no index is 0 and instrument
+//! index != exchange index). Every history of length <= d over the alphabet, per driven instrument:
+//!   * fills (account `Trade` events): side{Buy,Sell} x qty{1,2} x price{100,110} x fee{0,0.3}
+//!   * public trades: time{newer, equal, older than every event seen for the instrument} x price{100,120}
+//!   * top-of-book (L1): time{newer, equal, older} x book{99x1|101x1 (mid 100), 104x1|108x3 (vw-mid 105)}
+//!   * unpriced market events: a liquidation, an L1 with both sides empty (newer / older)
+//! ("newer/equal/older" are relative to the greatest timestamp - market event or fill - the instrument
+//! has seen, so stale and duplicate timestamps are reachable in every state; the first market event is
+//! always "newer"; a fill is always stamped newer than everything before it on its instrument).
+//!
+//! Oracle (from the statement). est(x) = side * qty * (x - entry average) - (qty / qty_max) * fees_enter
+//! is recomputed here from the position's own fields ("price move on the open quantity minus pro-rata
+//! estimated exit fees"). After every event, for the event's instrument i with an open position:
+//!   (a) priced market event (trade / two-sided L1) strictly newer than every event (market or fill) i has seen
+//!       => pnl_unrealised == est(current price of i), where the current price is what the real
+//!          `InstrumentDataState::price()` reports after the event          [sentence 1 of the statement]
+//!   (b) fill on i at price f leaving a position open => pnl_unrealised == est(f) [sentence 2]; for the
+//!       fill that OPENS the position (also the remainder of a flip) the value 0 is accepted as well:
+//!       nothing has moved yet and the repository's own unit tests pin 0 there (noted in the coverage)
+//!   (c) any other market event on i (stale / equal timestamp, liquidation, empty book): the statement
+//!       is silent => "still an allowed value" and est(current price) are both accepted
+//!   (d) an event on another instrument leaves pnl_unrealised of i unchanged ("until newer market data
+//!       arrives" - data of another instrument is not data for i)
+//! The monitor keeps, per instrument, the set of allowed sources of the estimate (a price, "0 at open",
+//! or - after a reported violation - the observed value, so one defect is reported where it happens and
+//! does not cascade). Signatures: rule + abstract cause (left-at-previous-value,
+//! estimate-at-price-before-the-event, estimate-at-event-price-not-current-price, ...).
 
-pub fn run(_ctx: &Ctx) -> Outcome {
-    eprintln!("MACHINERY: C15 not implemented");
-    std::process::exit(2)
+use super::common::*;
+use crate::core::{Ctx, Outcome, hash_of};
+use crate::explore::seq::{self, SeqModel, Viol};
+use barter::{
+    EngineEvent,
+    engine::{
+        Engine, Processor,
+        execution_tx::MultiExchangeTxMap,
+        state::{
+            instrument::data::InstrumentDataState, position::Position, trading::TradingState,
+        },
+    },
+    execution::AccountStreamEvent,
+};
+use barter_data::{
+    books::Level,
+    event::{DataKind, MarketEvent},
+    streams::consumer::MarketStreamEvent,
+    subscription::{book::OrderBookL1, liquidation::Liquidation, trade::PublicTrade},
+};
+use barter_execution::{
+    AccountEvent, AccountEventKind,
+    order::id::OrderId,
+    trade::{AssetFees, Trade, TradeId},
+};
+use barter_instrument::{
+    Side,
+    asset::QuoteAsset,
+    exchange::{ExchangeId, ExchangeIndex},
+    index::IndexedInstruments,
+    instrument::InstrumentIndex,
+};
+use rust_decimal::Decimal;
+use rust_decimal_macros::dec;
+use serde::{Deserialize, Serialize};
+use serde_json::{Value, json};
+use std::{
+    panic::{AssertUnwindSafe, catch_unwind},
+    sync::atomic::{AtomicU64, Ordering},
+};
+
+const QTY: [Decimal; 2] = [dec!(1), dec!(2)];
+const FILL_PRICE: [Decimal; 2] = [dec!(100), dec!(110)];
+const FEE: [Decimal; 2] = [dec!(0), dec!(0.3)];
+const TRADE_PRICE: [f64; 2] = [100.0, 120.0];
+/// (bid price, bid amount, ask price, ask amount)
+const BOOK: [(Decimal, Decimal, Decimal, Decimal); 2] =
+    [(dec!(99), dec!(1), dec!(101), dec!(1)), (dec!(104), dec!(1), dec!(108), dec!(3))];
+const LIQUIDATION_PRICE: f64 = 130.0;
+
+const REL_TOL: Decimal = dec!(0.000000000000000001);
+const ABS_TOL: Decimal = dec!(0.000000000000000000000001);
+
+/// Timestamp class relative to the greatest event time (market event or fill) seen so far for the instrument.
+#[derive(Debug, Clone, Copy, PartialEq, Eq, Hash, Serialize, Deserialize)]
+pub enum T {
+    Newer,
+    Equal,
+    Older,
 }
 
-pub fn replay(_ctx: &Ctx, _case: &Value) {
-    eprintln!("MACHINERY: C15 not implemented");
-    std::process::exit(2)
+#[derive(Debug, Clone, Copy, PartialEq, Eq, Hash, Serialize, Deserialize)]
+pub enum Sym {
+    /// fill on driven instrument `i` (0/1): indices into QTY / FILL_PRICE / FEE
+    Fill { i: u8, buy: bool, q: u8, p: u8, f: u8 },
+    /// public trade
+    Trade { i: u8, t: T, p: u8 },
+    /// two-sided top of book
+    L1 { i: u8, t: T, b: u8 },
+    /// liquidation (never a price source)
+    Liquidation { i: u8 },
+    /// L1 with no bid and no ask
+    EmptyL1 { i: u8, t: T },
+}
+impl Sym {
+    fn instrument(&self) -> usize {
+        match *self {
+            Sym::Fill { i, .. } | Sym::Trade { i, .. } | Sym::L1 { i, .. } | Sym::Liquidation { i } | Sym::EmptyL1 { i, .. } => i as usize,
+        }
+    }
+}
+
+/// The engine is not `Clone` (its tx map is not); clone it field by field.
+pub struct Eng(pub SEngine);
+impl Clone for Eng {
+    fn clone(&self) -> Self {
+        let e = &self.0;
+        Eng(Engine {
+            clock: e.clock.clone(),
+            meta: e.meta,
+            state: e.state.clone(),
+            execution_txs: MultiExchangeTxMap::from_iter(
+                (&e.execution_txs).into_iter().map(|(x, tx)| (*x, tx.clone())),
+            ),
+            strategy: e.strategy.clone(),
+            risk: e.risk.clone(),
+        })
+    }
+}
+
+/// Where an acceptable value of the estimate comes from.
+#[derive(Debug, Clone, Copy, PartialEq)]
+enum Src {
+    /// est(price)
+    Price(Decimal),
+    /// the literal 0 of a position that was just opened
+    ZeroAtOpen,
+    /// a value already reported as a violation (re-synchronisation)
+    Observed(Decimal),
+}
+
+#[derive(Debug, Clone, Default)]
+struct Mon {
+    /// net signed filled quantity (reference)
+    net: Decimal,
+    /// allowed sources for pnl_unrealised of the open position (empty when flat)
+    allowed: Vec<Src>,
+    /// greatest event time (market event or fill; seconds after t0) seen for this instrument
+    max_t: Option<i64>,
+}
+
+#[derive(Clone)]
+pub struct St {
+    eng: Eng,
+    mon: [Mon; 2],
+    dead: bool,
+}
+
+#[derive(Default)]
+pub struct Counters {
+    priced_new_checked: AtomicU64,
+    fill_checked: AtomicU64,
+    no_new_price_checked: AtomicU64,
+    other_instrument_checked: AtomicU64,
+    refreshed_to_new_value: AtomicU64,
+    open_fill_zero_where_estimate_nonzero: AtomicU64,
+}
+
+/// Alphabet width: the narrower, the deeper the bound.
+#[derive(Debug, Clone, Copy, PartialEq, Eq)]
+pub enum Width {
+    Full,
+    Medium,
+    Narrow,
+}
+
+pub struct M {
+    width: Width,
+    instruments: IndexedInstruments,
+    /// driven instruments: (instrument index, exchange id, exchange index)
+    driven: [(InstrumentIndex, ExchangeId, ExchangeIndex); 2],
+    pub n: Counters,
+}
+
+impl M {
+    pub fn new(width: Width) -> Self {
+        let instruments = IndexedInstruments::builder()
+            .add_instrument(spot(EXCHANGES[0], "a0", "A0", "btc", "usdt"))
+            .add_instrument(spot(EXCHANGES[0], "a1", "A1", "eth", "usdt"))
+            .add_instrument(spot(EXCHANGES[1], "b0", "B0", "btc", "usdt"))
+            .build();
+        let find = |name: &str| {
+            let i = instruments
+                .instruments()
+                .iter()
+                .find(|i| i.value.name_internal.name().as_str() == name)
+                .expect("instrument");
+            let x = i.value.exchange.key;
+            (i.key, instruments.exchanges()[x.index()].value, x)
+        };
+        let driven = [find("a1"), find("b0")];
+        Self { width, instruments, driven, n: Counters::default() }
+    }
+    pub fn label(&self) -> &'static str {
+        match self.width {
+            Width::Full => "full",
+            Width::Medium => "medium",
+            Width::Narrow => "narrow",
+        }
+    }
+
+    fn position<'a>(&self, eng: &'a Eng, i: usize) -> Option<&'a Position<QuoteAsset, InstrumentIndex>> {
+        eng.0.state.instruments.instrument_index(&self.driven[i].0).position.current.as_ref()
+    }
+    fn price(&self, eng: &Eng, i: usize) -> Option<Decimal> {
+        eng.0.state.instruments.instrument_index(&self.driven[i].0).data.price()
+    }
+
+    fn market(&self, i: usize, t: i64, kind: DataKind) -> Event {
+        EngineEvent::Market(MarketStreamEvent::Item(MarketEvent {
+            time_exchange: t_plus(t),
+            time_received: t_plus(t),
+            exchange: self.driven[i].1,
+            instrument: self.driven[i].0,
+            kind,
+        }))
+    }
+}
+
+fn time_of(max_t: Option<i64>, t: T) -> i64 {
+    match (max_t, t) {
+        (None, _) => 2,
+        (Some(m), T::Newer) => m + 2,
+        (Some(m), T::Equal) => m,
+        (Some(m), T::Older) => m - 1,
+    }
+}
+
+/// The documented estimate, from the position's own fields.
+fn est(p: &Position<QuoteAsset, InstrumentIndex>, x: Decimal) -> Decimal {
+    let dir = if p.side == Side::Buy { Decimal::ONE } else { -Decimal::ONE };
+    dir * p.quantity_abs * (x - p.price_entry_average) - (p.quantity_abs / p.quantity_abs_max) * p.fees_enter.fees
+}
+fn tol(p: &Position<QuoteAsset, InstrumentIndex>, x: Decimal) -> Decimal {
+    (p.quantity_abs * (x.abs() + p.price_entry_average.abs()) + p.fees_enter.fees.abs()) * REL_TOL + ABS_TOL
+}
+fn close_to(p: &Position<QuoteAsset, InstrumentIndex>, got: Decimal, x: Decimal) -> bool {
+    (got - est(p, x)).abs() <= tol(p, x)
+}
+fn accepts(p: &Position<QuoteAsset, InstrumentIndex>, got: Decimal, allowed: &[Src]) -> bool {
+    allowed.iter().any(|s| match *s {
+        Src::Price(x) => close_to(p, got, x),
+        Src::ZeroAtOpen => got.is_zero(),
+        Src::Observed(v) => got == v,
+    })
+}
+
+impl SeqModel for M {
+    type State = St;
+    type Sym = Sym;
+
+    fn init(&self) -> St {
+        let (engine, _links) = build_engine(&self.instruments, TradingState::Disabled, &[]);
+        St { eng: Eng(engine), mon: Default::default(), dead: false }
+    }
+
+    fn alphabet(&self, s: &St, _hist: &[Sym]) -> Vec<Sym> {
+        if s.dead {
+            return vec![];
+        }
+        let mut v = Vec::new();
+        for i in 0..2u8 {
+            let first = s.mon[i as usize].max_t.is_none();
+            if self.width == Width::Narrow {
+                // fills qty{1,2} @100 fee 0.3, trade @120 {newer, older}, L1 book 1 newer, empty L1 newer
+                for q in 0..2u8 {
+                    for buy in [true, false] {
+                        v.push(Sym::Fill { i, buy, q, p: 0, f: 1 });
+                    }
+                }
+                v.push(Sym::Trade { i, t: T::Newer, p: 1 });
+                if !first {
+                    v.push(Sym::Trade { i, t: T::Older, p: 1 });
+                }
+                v.push(Sym::L1 { i, t: T::Newer, b: 1 });
+                v.push(Sym::EmptyL1 { i, t: T::Newer });
+                continue;
+            }
+            if self.width == Width::Medium {
+                // fills qty{1,2} x price{100,110} fee 0.3, trade @120 {newer, equal, older}, L1 book 1
+                // {newer, older}, empty L1 newer
+                for q in 0..2u8 {
+                    for p in 0..2u8 {
+                        for buy in [true, false] {
+                            v.push(Sym::Fill { i, buy, q, p, f: 1 });
+                        }
+                    }
+                }
+                let times: &[T] = if first { &[T::Newer] } else { &[T::Newer, T::Equal, T::Older] };
+                for &t in times {
+                    v.push(Sym::Trade { i, t, p: 1 });
+                }
+                v.push(Sym::L1 { i, t: T::Newer, b: 1 });
+                if !first {
+                    v.push(Sym::L1 { i, t: T::Older, b: 1 });
+                }
+                v.push(Sym::EmptyL1 { i, t: T::Newer });
+                continue;
+            }
+            let times: &[T] = if first { &[T::Newer] } else { &[T::Newer, T::Equal, T::Older] };
+            for f in 0..2u8 {
+                for q in 0..2u8 {
+                    for p in 0..2u8 {
+                        for buy in [true, false] {
+                            v.push(Sym::Fill { i, buy, q, p, f });
+                        }
+                    }
+                }
+            }
+            for &t in times {
+                for p in 0..2u8 {
+                    v.push(Sym::Trade { i, t, p });
+                }
+            }
+            for &t in times {
+                for b in 0..2u8 {
+                    v.push(Sym::L1 { i, t, b });
+                }
+            }
+            v.push(Sym::Liquidation { i });
+            v.push(Sym::EmptyL1 { i, t: T::Newer });
+            if !first {
+                v.push(Sym::EmptyL1 { i, t: T::Older });
+            }
+        }
+        v
+    }
+
+    fn step(&self, s: &mut St, sym: &Sym, hist: &[Sym], out: &mut Vec<Viol>) {
+        let i = sym.instrument();
+        let j = 1 - i;
+        let n = hist.len();
+
+        // ---- build the event; classify it from the reference point of view
+        // priced: Some(event's own price) for trades / two-sided books
+        let (event, fill, priced, definitely_new, kind): (Event, Option<(Decimal, Decimal, bool)>, Option<Decimal>, bool, &str) = match *sym {
+            Sym::Fill { buy, q, p, f, .. } => {
+                // a fill is stamped newer than everything the instrument has seen (so a later "newer"
+                // market event is also newer than the fill)
+                let fill_time = s.mon[i].max_t.map_or(1, |m| m + 1);
+                s.mon[i].max_t = Some(fill_time);
+                let trade = Trade {
+                    id: TradeId::new(format!("f{n}")),
+                    order_id: OrderId::new("o"),
+                    instrument: self.driven[i].0,
+                    strategy: strategy_id(),
+                    time_exchange: t_plus(fill_time),
+                    side: if buy { Side::Buy } else { Side::Sell },
+                    price: FILL_PRICE[p as usize],
+                    quantity: QTY[q as usize],
+                    fees: AssetFees::quote_fees(FEE[f as usize]),
+                };
+                let ev = EngineEvent::Account(AccountStreamEvent::Item(AccountEvent {
+                    exchange: self.driven[i].2,
+                    kind: AccountEventKind::Trade(trade),
+                }));
+                (ev, Some((QTY[q as usize], FILL_PRICE[p as usize], buy)), None, false, "fill")
+            }
+            Sym::Trade { t, p, .. } => {
+                let max_t = s.mon[i].max_t;
+                let time = time_of(max_t, t);
+                let kind = DataKind::Trade(PublicTrade { id: format!("m{n}"), price: TRADE_PRICE[p as usize], amount: 1.0, side: Side::Buy });
+                let newer = max_t.is_none_or(|m| time > m);
+                s.mon[i].max_t = Some(max_t.map_or(time, |m| m.max(time)));
+                (self.market(i, time, kind), None, Decimal::try_from(TRADE_PRICE[p as usize]).ok(), newer, "trade")
+            }
+            Sym::L1 { t, b, .. } => {
+                let max_t = s.mon[i].max_t;
+                let time = time_of(max_t, t);
+                let (bp, ba, ap, aa) = BOOK[b as usize];
+                let kind = DataKind::OrderBookL1(OrderBookL1 {
+                    last_update_time: t_plus(time),
+                    best_bid: Some(Level { price: bp, amount: ba }),
+                    best_ask: Some(Level { price: ap, amount: aa }),
+                });
+                let newer = max_t.is_none_or(|m| time > m);
+                s.mon[i].max_t = Some(max_t.map_or(time, |m| m.max(time)));
+                (self.market(i, time, kind), None, Some((bp * aa + ap * ba) / (ba + aa)), newer, "l1")
+            }
+            Sym::Liquidation { .. } => {
+                let max_t = s.mon[i].max_t;
+                let time = time_of(max_t, T::Newer);
+                let kind = DataKind::Liquidation(Liquidation { side: Side::Sell, price: LIQUIDATION_PRICE, quantity: 1.0, time: t_plus(time) });
+                s.mon[i].max_t = Some(time);
+                (self.market(i, time, kind), None, None, false, "liquidation")
+            }
+            Sym::EmptyL1 { t, .. } => {
+                let max_t = s.mon[i].max_t;
+                let time = time_of(max_t, t);
+                let kind = DataKind::OrderBookL1(OrderBookL1 { last_update_time: t_plus(time), best_bid: None, best_ask: None });
+                s.mon[i].max_t = Some(max_t.map_or(time, |m| m.max(time)));
+                (self.market(i, time, kind), None, None, false, "empty-l1")
+            }
+        };
+
+        // ---- observations before
+        let before_i = self.position(&s.eng, i).map(|p| p.pnl_unrealised);
+        let before_j = self.position(&s.eng, j).map(|p| p.pnl_unrealised);
+        let price_before = self.price(&s.eng, i);
+
+        // ---- the real engine
+        let eng = &mut s.eng;
+        if catch_unwind(AssertUnwindSafe(|| {
+            eng.0.process(event.clone());
+        }))
+        .is_err()
+        {
+            out.push((format!("C15/panic/{kind}"), format!("Engine::process panicked on {event:?}")));
+            s.dead = true;
+            return;
+        }
+
+        // ---- (d) the other instrument's estimate is untouched
+        if let (Some(b), Some(p)) = (before_j, self.position(&s.eng, j)) {
+            self.n.other_instrument_checked.fetch_add(1, Ordering::Relaxed);
+            if p.pnl_unrealised != b {
+                out.push((
+                    format!("C15/other-instrument-estimate-untouched/{}", if fill.is_some() { "fill" } else { "market-event" }),
+                    format!("{sym:?} on driven instrument {i} changed pnl_unrealised of instrument {j} from {b} to {}", p.pnl_unrealised),
+                ));
+                s.mon[j].allowed = vec![Src::Observed(p.pnl_unrealised)];
+            }
+        }
+
+        let price_now = self.price(&s.eng, i);
+        let pos = self.position(&s.eng, i);
+        let mon = &mut s.mon[i];
+
+        // ---- fills: rule (b)
+        if let Some((q, f, buy)) = fill {
+            let signed = if buy { q } else { -q };
+            let net0 = mon.net;
+            let net1 = net0 + signed;
+            mon.net = net1;
+            let opening = net0.is_zero() || (net0.is_sign_negative() != net1.is_sign_negative() && !net1.is_zero());
+            let arm = if net0.is_zero() {
+                "open"
+            } else if net0.is_sign_negative() == signed.is_sign_negative() {
+                "increase"
+            } else if q < net0.abs() {
+                "reduce"
+            } else if q == net0.abs() {
+                "close"
+            } else {
+                "flip"
+            };
+            match pos {
+                Some(p) if !net1.is_zero() => {
+                    mon.allowed = if opening { vec![Src::ZeroAtOpen, Src::Price(f)] } else { vec![Src::Price(f)] };
+                    self.n.fill_checked.fetch_add(1, Ordering::Relaxed);
+                    let got = p.pnl_unrealised;
+                    if opening && got.is_zero() && !close_to(p, got, f) {
+                        // Sentence 2 of the statement: after a fill the estimate is the one at the fill
+                        // price, i.e. -(entry fee share) for a freshly opened position. The code starts a
+                        // new position at exactly 0 (pinned by the repository's own unit tests), which is a
+                        // recorded known finding; the value 0 stays in `allowed` so that later steps are
+                        // judged from what the implementation holds and one cause yields one signature.
+                        self.n.open_fill_zero_where_estimate_nonzero.fetch_add(1, Ordering::Relaxed);
+                        out.push((
+                            "C15/estimate-at-fill-price-after-fill/position-opening-fill/zero-instead-of-estimate-with-entry-fee".to_string(),
+                            format!(
+                                "after opening fill {sym:?} (net {net0} -> {net1}) pnl_unrealised = 0; the estimate at the fill price {f} is {} (fees_enter {})",
+                                est(p, f), p.fees_enter.fees
+                            ),
+                        ));
+                    }
+                    if !accepts(p, got, &mon.allowed) {
+                        let cause = if price_now.is_some_and(|x| close_to(p, got, x)) {
+                            "estimate-at-market-price-not-fill-price"
+                        } else if !opening && Some(got) == before_i {
+                            "left-at-previous-value"
+                        } else {
+                            "wrong-value"
+                        };
+                        out.push((
+                            format!("C15/estimate-at-fill-price-after-fill/{arm}/{cause}"),
+                            format!(
+                                "after fill {sym:?} (net {net0} -> {net1}) pnl_unrealised = {got}; the estimate at the fill price {f} is {} (position {:?} {} @ {} max {} fees_enter {}; market price {price_now:?})",
+                                est(p, f), p.side, p.quantity_abs, p.price_entry_average, p.quantity_abs_max, p.fees_enter.fees
+                            ),
+                        ));
+                        mon.allowed = vec![Src::Observed(got)];
+                    }
+                }
+                // flat, or the position bookkeeping itself disagrees with the fills (C02's business):
+                // nothing to judge; re-synchronise
+                other => {
+                    mon.allowed.clear();
+                    mon.net = match other {
+                        Some(p) => {
+                            mon.allowed = vec![Src::Observed(p.pnl_unrealised)];
+                            if p.side == Side::Buy { p.quantity_abs } else { -p.quantity_abs }
+                        }
+                        None => Decimal::ZERO,
+                    };
+                }
+            }
+            return;
+        }
+
+        // ---- market events on i
+        let Some(p) = pos else { return };
+        let got = p.pnl_unrealised;
+        let classify = |allowed_prev: bool| -> &'static str {
+            if Some(got) == before_i && !allowed_prev {
+                "left-at-previous-value"
+            } else if price_before.is_some_and(|x| close_to(p, got, x)) {
+                "estimate-at-price-before-the-event"
+            } else if priced.is_some_and(|x| close_to(p, got, x)) {
+                "estimate-at-event-price-not-current-price"
+            } else {
+                "wrong-value"
+            }
+        };
+        match (priced, definitely_new, price_now) {
+            // (a) a new price for i: the estimate must be at the instrument's current price
+            (Some(_), true, Some(x)) => {
+                self.n.priced_new_checked.fetch_add(1, Ordering::Relaxed);
+                mon.allowed = vec![Src::Price(x)];
+                if Some(got) != before_i {
+                    self.n.refreshed_to_new_value.fetch_add(1, Ordering::Relaxed);
+                }
+                if !accepts(p, got, &mon.allowed) {
+                    out.push((
+                        format!("C15/priced-market-event-refreshes-estimate/{}", classify(false)),
+                        format!(
+                            "after {sym:?} ({kind}, newer than everything the instrument has seen) the instrument's price is {x} (was {price_before:?}) but pnl_unrealised = {got} (before the event: {before_i:?}); the estimate at {x} is {} (position {:?} {} @ {} max {} fees_enter {})",
+                            est(p, x), p.side, p.quantity_abs, p.price_entry_average, p.quantity_abs_max, p.fees_enter.fees
+                        ),
+                    ));
+                    mon.allowed = vec![Src::Observed(got)];
+                }
+            }
+            // (c) no (certainly) new price: unchanged-and-allowed or refreshed to the current price
+            (_, _, now) => {
+                self.n.no_new_price_checked.fetch_add(1, Ordering::Relaxed);
+                if let Some(x) = now {
+                    mon.allowed.push(Src::Price(x));
+                }
+                if !accepts(p, got, &mon.allowed) {
+                    out.push((
+                        format!("C15/event-without-new-price/{}", classify(true)),
+                        format!(
+                            "after {sym:?} ({kind}: no new price for the instrument; price {price_before:?} -> {now:?}) pnl_unrealised = {got} (before: {before_i:?}) is neither a previously allowed value {:?} nor the estimate at the current price",
+                            mon.allowed
+                        ),
+                    ));
+                    mon.allowed = vec![Src::Observed(got)];
+                } else {
+                    // keep only the sources that explain the observed value (the estimate now IS that value)
+                    let keep: Vec<Src> = mon.allowed.iter().copied().filter(|s| accepts(p, got, &[*s])).collect();
+                    mon.allowed = keep;
+                }
+            }
+        }
+    }
+
+    fn final_hash(&self, s: &St) -> u64 {
+        let mut v = Vec::with_capacity(2);
+        for i in 0..2 {
+            let st = s.eng.0.state.instruments.instrument_index(&self.driven[i].0);
+            let pos = st.position.current.as_ref().map(|p| {
+                (p.side == Side::Buy, p.quantity_abs, p.quantity_abs_max, p.price_entry_average, p.fees_enter.fees, p.pnl_unrealised)
+            });
+            v.push(hash_of(&(pos, &st.data)));
+        }
+        hash_of(&v)
+    }
+}
+
+pub fn run(ctx: &Ctx) -> Outcome {
+    // (alphabet width, max history length)
+    let plan: Vec<(Width, usize)> = ctx.tier.pick(
+        vec![(Width::Full, 4), (Width::Narrow, 6)],
+        vec![(Width::Full, 4), (Width::Medium, 5), (Width::Narrow, 7)],
+    );
+    let mut per_cfg = Vec::new();
+    let mut evaluations = 0u64;
+    let mut sequences = 0u64;
+    let mut distinct = 0usize;
+    let mut totals = [0u64; 6];
+    for (width, depth) in plan {
+        let m = M::new(width);
+        let st = seq::run(ctx, &m, m.label(), depth);
+        evaluations += st.steps;
+        sequences += st.sequences;
+        distinct += st.distinct_final;
+        let c = [
+            m.n.priced_new_checked.load(Ordering::Relaxed),
+            m.n.fill_checked.load(Ordering::Relaxed),
+            m.n.no_new_price_checked.load(Ordering::Relaxed),
+            m.n.other_instrument_checked.load(Ordering::Relaxed),
+            m.n.refreshed_to_new_value.load(Ordering::Relaxed),
+            m.n.open_fill_zero_where_estimate_nonzero.load(Ordering::Relaxed),
+        ];
+        for (t, x) in totals.iter_mut().zip(c) {
+            *t += x;
+        }
+        per_cfg.push(json!({
+            "label": m.label(), "max_len": depth, "sequences": st.sequences, "steps": st.steps,
+            "distinct_final_states": st.distinct_final,
+            "checks": {"a_priced_new_market_event_with_open_position": c[0], "b_fill_leaving_position_open": c[1],
+                       "c_event_without_new_price_with_open_position": c[2], "d_other_instrument_untouched": c[3]},
+        }));
+    }
+    if totals[0] == 0 || totals[1] == 0 || totals[2] == 0 || totals[3] == 0 {
+        eprintln!("MACHINERY: C15 exploration is vacuous: {totals:?}");
+        std::process::exit(2);
+    }
+    let samples = vec![
+        json!({"label": "full", "seq": [Sym::Fill{i:0,buy:true,q:0,p:0,f:1}, Sym::Trade{i:0,t:T::Newer,p:1}, Sym::L1{i:0,t:T::Newer,b:1}]}),
+        json!({"label": "full", "seq": [Sym::L1{i:1,t:T::Newer,b:0}, Sym::Fill{i:1,buy:false,q:1,p:1,f:0}, Sym::Trade{i:1,t:T::Older,p:1}]}),
+    ];
+    Outcome {
+        level: "exploration",
+        coverage: json!({
+            "evaluations": evaluations,
+            "sequences": sequences,
+            "distinct_nontrivial": distinct,
+            "exhaustive": true,
+            "rule": "all histories of length <= max_len through Engine::process over {fills, public trades, L1 updates (newer/equal/older timestamps), liquidation, empty L1} x 2 driven instruments (indices 1 and 2 on 2 exchanges); after every event pnl_unrealised of every open position is compared with the documented estimate at the instrument's current price / the fill price (rules a-d)",
+            "checks_a_priced_new_market_event": totals[0],
+            "checks_b_fill": totals[1],
+            "checks_c_event_without_new_price": totals[2],
+            "checks_d_other_instrument": totals[3],
+            "market_events_that_changed_the_estimate": totals[4],
+            "noted_open_fill_estimate_is_zero_not_minus_entry_fee": totals[5],
+            "per_configuration": per_cfg,
+            "samples": samples,
+        }),
+        assumptions: vec![
+            "L1 events carry last_update_time == time_exchange, as every connector constructs them".into(),
+            "fills: price > 0, quantity > 0, fee >= 0 in the quote asset, fresh trade ids; market prices are finite positive numbers".into(),
+            "the instrument's current price is what the real InstrumentDataState::price() reports after the event (DefaultInstrumentMarketData: L1 volume-weighted mid, else last trade)".into(),
+            "a market event 'yields a price' for certain only if it is a trade or two-sided L1 strictly newer (exchange time) than every market event and fill the instrument has seen; for every other market event both 'unchanged' and 'estimate at the current price' are accepted".into(),
+            "a freshly opened position showing pnl_unrealised = 0 although the entry fee is non-zero is reported under its own signature (known finding); the value 0 is kept as the reference for later steps".into(),
+        ],
+    }
+}
+
+pub fn replay(ctx: &Ctx, case: &Value) {
+    let m = M::new(match case["label"].as_str().unwrap_or("full") {
+        "narrow" => Width::Narrow,
+        "medium" => Width::Medium,
+        _ => Width::Full,
+    });
+    for (sig, detail) in seq::replay(&m, case) {
+        ctx.violate(sig, detail, case.clone());
+    }
 }
